@@ -70,6 +70,23 @@ CLAIMED = {
             'Monotonicity with Z,f live: search only. Tie: bit-exact correspondence of constructor and altitude look-ups.',
             'hand Lean model + real-analysis bounds, regenerated constants, bit-exact differential run, ISA/grid oracle',
             '5 C08'),
+    'C03': ('Theorem C03_rows_exact over the loop+filter model for EVERY state sequence (any physics) that moves forward with per-step advance <= '
+            'min(calc_step, step): exactly the rows 0, step, ..., K*step, one each, all multiples up to the range, at most one integration step beyond, '
+            'strictly increasing times, muzzle row first (loop invariant, induction over iterations); default step = 11 rows; time-step record rule. '
+            'Tie: bit-exact correspondence of plain trajectories with head/tail/cross winds.',
+            'hand Lean model + loop invariant for arbitrary state sequences, bit-exact differential run, row-count oracle incl. tail winds',
+            '5 C03'),
+    'C11': ('Theorems over the loop model: state/wind-sock/by-products after an iteration are those of the physical step alone (any flags, steps, '
+            'filter state); by induction a completed run ends on the shot\'s physical state sequence, only the prefix length depends on the request; '
+            'distance-trigger rows are the interpolant of two consecutive states; plain vs extra and with/without time step one-step simulations. '
+            'Tie: bit-exact correspondence of whole trajectories; request pairs on the real code.',
+            'hand Lean model + induction over the loop + filter normal form, bit-exact differential run, metamorphic request pairs',
+            '5 C11'),
+    'C15': ('Theorems over the event half of the filter fed with ARBITRARY state sequences: ZERO_UP/ZERO_DOWN raised at most once, exactly at the first '
+            'state on the other side of the sight line (crossing within that step), pre-marking rule, MACH raised iff v/c passes from >1 to <=1, event '
+            'row = the state or the same-step interpolant, rows in time order. Tie: bit-exact correspondence of extra-data trajectories.',
+            'hand Lean model + induction over state sequences, bit-exact differential run, dense-trace oracle',
+            '5 C15'),
 }
 NOT_APPLICABLE = {}
 TODO_REASON = 'check not built yet in this round (planned, see DESIGN.md section 5)'
